@@ -235,6 +235,63 @@ Section Invariant.
   Theorem load_inv n rows : Inv n rows (LD.load_edges n rows).
   Proof. exact (inv_fold n rows [] _ (inv_init n)). Qed.
 
+  (* ---- missing_vertices: empty at the end iff every end point of every row is below n ---- *)
+  Lemma set_add_not_nil (l : list nat) x : LD.set_add l x <> [].
+  Proof.
+    unfold LD.set_add. destruct l as [|y r]; cbn [existsb]; [discriminate|].
+    destruct (Nat.eqb x y || existsb (Nat.eqb x) r); [discriminate|]. cbn [app]. discriminate.
+  Qed.
+
+  Lemma missing_step n st e :
+    List.length (LD.l_adj st) = n -> List.length (LD.l_rev st) = n ->
+    (LD.l_missing (LD.edge_cb st e) = [] <-> LD.l_missing st = [] /\ LD.e_src e < n /\ LD.e_dst e < n).
+  Proof.
+    intros Hla Hlr. unfold LD.edge_cb.
+    destruct (nth_error (LD.l_adj st) (LD.e_src e)) as [ma|] eqn:Ea; cbn [LD.l_adj LD.l_rev LD.l_missing].
+    - assert (Hs : LD.e_src e < n) by (rewrite <- Hla; apply nth_error_Some; congruence).
+      destruct (nth_error (LD.l_rev st) (LD.e_dst e)) as [mr|] eqn:Er; cbn [LD.l_missing].
+      + assert (Hd : LD.e_dst e < n) by (rewrite <- Hlr; apply nth_error_Some; congruence). tauto.
+      + apply nth_error_None in Er. split; [intros H; exfalso; exact (set_add_not_nil _ _ H)|].
+        intros (_ & _ & Hd). lia.
+    - apply nth_error_None in Ea.
+      destruct (nth_error (LD.l_rev st) (LD.e_dst e)) as [mr|] eqn:Er; cbn [LD.l_missing];
+        (split; [intros H; exfalso; exact (set_add_not_nil _ _ H) | intros (_ & Hs & _); lia]).
+  Qed.
+
+  Lemma missing_fold n rows : forall done st, Inv n done st ->
+    (LD.l_missing (fold_left LD.edge_cb rows st) = [] <-> LD.l_missing st = [] /\ LD.ends_below n rows).
+  Proof.
+    unfold LD.ends_below. induction rows as [|e r IH]; intros done st H; cbn [fold_left].
+    - split; [intros Hm; split; [exact Hm | constructor] | tauto].
+    - rewrite (IH (done ++ [e]) _ (inv_step n done st e H)).
+      destruct H as (Hla & Hlr & _). rewrite (missing_step n st e Hla Hlr). split.
+      + intros ((Hm & Hs & Hd) & Hr). split; [exact Hm|]. constructor; [split; assumption | exact Hr].
+      + intros (Hm & Hall). inversion Hall as [|e' r' [Hs Hd] Hr]; subst. tauto.
+  Qed.
+
+  Theorem missing_nil_iff n rows : LD.l_missing (LD.load_edges n rows) = [] <-> LD.ends_below n rows.
+  Proof.
+    unfold LD.load_edges. rewrite (missing_fold n rows [] _ (inv_init n)). cbn [LD.init_state LD.l_missing]. tauto.
+  Qed.
+
+  (* the load succeeds exactly when every end point is below n, and then yields [build] *)
+  Theorem load_ok_iff n rows (vrows : list (LD.vertex C)) g :
+    LD.load n rows vrows = Ok g <-> g = LD.build n rows vrows /\ LD.ends_below n rows.
+  Proof.
+    unfold LD.load. rewrite <- missing_nil_iff.
+    destruct (LD.l_missing (LD.load_edges n rows)) as [|x l]; split.
+    - intros H. injection H as <-. split; reflexivity.
+    - intros [-> _]. reflexivity.
+    - discriminate.
+    - intros [_ H]. discriminate.
+  Qed.
+  Theorem load_fails n rows (vrows : list (LD.vertex C)) :
+    ~ LD.ends_below n rows -> LD.load n rows vrows = Err "DatasetError"%string.
+  Proof.
+    intros H. unfold LD.load. destruct (LD.l_missing (LD.load_edges n rows)) as [|x l] eqn:E; [|reflexivity].
+    exfalso. apply H. apply missing_nil_iff. exact E.
+  Qed.
+
   (* ---------------------------------------------------------------------------------- *)
   (* Part 3                                                                             *)
   (* ---------------------------------------------------------------------------------- *)
@@ -580,28 +637,146 @@ Section Invariant.
     - injection H as -> ->. rewrite Nat.eqb_refl. apply IH. reflexivity.
   Qed.
 
-  Theorem wfb_wf (f : LD.files D C) nv : LD.wfb f nv = true <-> LD.wf f nv.
+  Lemma endsb_ends n rows : LD.endsb n rows = true <-> LD.ends_below n rows.
   Proof.
-    unfold LD.wfb, LD.wf, LD.ids_are_rows, LD.vids_are_rows, LD.ends_below.
-    rewrite !andb_true_iff, !nat_list_eqb_eq, forallb_forall, Forall_forall, !Nat.eqb_eq.
-    split.
-    - intros (((((H1 & H2) & H3) & H4) & H5) & H6). repeat split; try assumption.
-      + apply H3 in H. apply andb_true_iff in H. apply Nat.ltb_lt. tauto.
-      + apply H3 in H. apply andb_true_iff in H. apply Nat.ltb_lt. tauto.
-      + destruct nv as [k|]; [right; apply Nat.eqb_eq in H6; congruence | left; reflexivity].
-    - intros (H1 & H2 & H3 & H4 & H5 & H6). repeat split; try assumption.
-      + intros e He. apply H3 in He. apply andb_true_iff. split; apply Nat.ltb_lt; tauto.
-      + destruct H6 as [->| ->]; [reflexivity | apply Nat.eqb_refl].
+    unfold LD.endsb, LD.ends_below. rewrite forallb_forall, Forall_forall. split; intros H e He.
+    - apply H in He. apply andb_true_iff in He. split; apply Nat.ltb_lt; tauto.
+    - apply H in He. apply andb_true_iff. split; apply Nat.ltb_lt; tauto.
+  Qed.
+
+  Lemma formatb_format (f : LD.files D C) nv : LD.formatb f nv = true <-> LD.wf_format f nv.
+  Proof.
+    unfold LD.formatb, LD.wf_format, LD.ids_are_rows, LD.vids_are_rows.
+    rewrite !andb_true_iff, !nat_list_eqb_eq, !Nat.eqb_eq. split.
+    - intros ((((H1 & H2) & H4) & H5) & H6). repeat split; try assumption.
+      destruct nv as [k|]; [right; apply Nat.eqb_eq in H6; congruence | left; reflexivity].
+    - intros (H1 & H2 & H4 & H5 & H6). repeat split; try assumption.
+      destruct H6 as [->| ->]; [reflexivity | apply Nat.eqb_refl].
+  Qed.
+
+  Theorem wfb_wf (f : LD.files D C) nv : LD.wfb f nv = true <-> LD.wf f nv.
+  Proof. unfold LD.wfb, LD.wf. rewrite andb_true_iff, formatb_format, endsb_ends. tauto. Qed.
+
+  (* the adjacency size graph_from_files uses *)
+  Lemma from_files_size (f : LD.files D C) ne nv : LD.wf_format f nv ->
+    LD.graph_from_files f ne nv
+    = LD.load (List.length (LD.f_vertex_rows f)) (LD.f_edge_rows f) (LD.f_vertex_rows f).
+  Proof.
+    intros (_ & _ & Hel & Hvl & Hnv). unfold LD.graph_from_files, LD.get_n.
+    rewrite Hel, Hvl. cbn [Nat.ltb Nat.leb Nat.sub].
+    destruct ne as [k|]; cbn [bind]; destruct Hnv as [->| ->]; cbn [bind]; rewrite ?Nat.sub_0_r; reflexivity.
   Qed.
 
   Theorem from_files_ok (f : LD.files D C) ne nv : LD.wf f nv ->
     LD.graph_from_files f ne nv
     = Ok (build (List.length (LD.f_vertex_rows f)) (LD.f_edge_rows f) (LD.f_vertex_rows f)).
   Proof.
-    intros (_ & _ & _ & Hel & Hvl & Hnv). unfold LD.graph_from_files, LD.get_n.
-    rewrite Hel, Hvl. cbn [Nat.ltb Nat.leb Nat.sub].
-    destruct ne as [k|]; cbn [bind]; destruct Hnv as [->| ->]; cbn [bind]; rewrite ?Nat.sub_0_r; reflexivity.
+    intros [Hf He]. rewrite (from_files_size f ne nv Hf). apply load_ok_iff. split; [reflexivity | exact He].
   Qed.
+
+  (* an edge list that references a vertex that is not listed does not load *)
+  Theorem from_files_fails (f : LD.files D C) ne nv : LD.wf_format f nv ->
+    ~ LD.ends_below (List.length (LD.f_vertex_rows f)) (LD.f_edge_rows f) ->
+    LD.graph_from_files f ne nv = Err "DatasetError"%string.
+  Proof. intros Hf He. rewrite (from_files_size f ne nv Hf). apply load_fails. exact He. Qed.
+
+  (* whatever the files and counts: a successful load is [build n] for the adjacency size n the code chose,
+     and every end point of every row is below n *)
+  Theorem from_files_inv (f : LD.files D C) ne nv g : LD.graph_from_files f ne nv = Ok g ->
+    exists n, g = build n (LD.f_edge_rows f) (LD.f_vertex_rows f)
+              /\ LD.ends_below n (LD.f_edge_rows f)
+              /\ (nv = Some n \/ (nv = None /\ LD.f_vertex_lines f = S n)).
+  Proof.
+    unfold LD.graph_from_files. intros H.
+    destruct (match ne with Some n => Ok n | None => LD.get_n (LD.f_edge_lines f) end) as [k| | |];
+      cbn [bind] in H; try discriminate.
+    destruct nv as [n|]; cbn [bind] in H.
+    - exists n. apply load_ok_iff in H. destruct H as [-> He]. repeat split; [exact He | left; reflexivity].
+    - unfold LD.get_n in H. destruct (Nat.ltb_spec (LD.f_vertex_lines f) 1) as [Hlt|Hge]; cbn [bind] in H;
+        [discriminate|].
+      exists (LD.f_vertex_lines f - 1). apply load_ok_iff in H. destruct H as [-> He].
+      repeat split; [exact He | right; split; [reflexivity | lia]].
+  Qed.
+
+  (* ---- every successful load (any files, any counts): the accessors of the loaded graph ---- *)
+  Section Loaded.
+    Variables (f : LD.files D C) (ne nv : option nat) (g : LD.graph D C).
+    Hypothesis Hload : LD.graph_from_files f ne nv = Ok g.
+    Let rows := LD.f_edge_rows f.
+    Let vrows := LD.f_vertex_rows f.
+
+    Ltac loaded n He :=
+      destruct (from_files_inv f ne nv g Hload) as (n & -> & He & _); fold rows vrows in He |- *.
+
+    Theorem loaded_sizes :
+      LD.n_edges g = List.length rows /\ LD.n_vertices g = List.length vrows
+      /\ List.length (LD.rev g) = List.length (LD.adj g)
+      /\ (forall n, nv = Some n -> List.length (LD.adj g) = n)
+      /\ (nv = None -> LD.f_vertex_lines f = S (List.length (LD.adj g))).
+    Proof.
+      destruct (from_files_inv f ne nv g Hload) as (n & -> & He & Hn). fold rows vrows.
+      destruct (build_lengths n rows vrows) as (Ha & Hr & Hne & Hnv). rewrite Ha, Hr.
+      repeat split; try assumption.
+      - intros k Hk. destruct Hn as [Hn|[Hn _]]; congruence.
+      - intros Hk. destruct Hn as [Hn|[_ Hn]]; [congruence | exact Hn].
+    Qed.
+    (* what the loader checks: no row of a loaded graph has an end point outside the adjacency *)
+    Theorem loaded_end_points : LD.ends_below (List.length (LD.adj g)) rows.
+    Proof. loaded n He. destruct (build_lengths n rows vrows) as (-> & _). exact He. Qed.
+
+    Theorem loaded_get_len v :
+      let some := map (fun p : nat * nat => (fst p, Some (snd p))) in
+      LD.get_view (LD.adj g) v = some (LD.adj_view g v) /\ LD.get_view (LD.rev g) v = some (LD.rev_view g v)
+      /\ LD.len_view (LD.adj g) v = List.length (LD.adj_view g v)
+      /\ LD.len_view (LD.rev g) v = List.length (LD.rev_view g v).
+    Proof. loaded n He. exact (get_len_views_general n rows vrows v). Qed.
+
+    Theorem loaded_get_vertex i : LD.vids_are_rows vrows ->
+      LD.get_vertex g i = LD.s_vertex vrows i
+      /\ (forall x, LD.get_vertex g i = Ok x -> nth_error vrows i = Some x /\ LD.v_id x = i).
+    Proof. intros Hv. loaded n He. exact (vertex_coords n rows vrows i Hv). Qed.
+
+    Hypothesis Hids : LD.ids_are_rows rows.
+
+    Theorem loaded_get_edge i :
+      LD.get_edge g i = LD.s_edge rows i
+      /\ (forall e, LD.get_edge g i = Ok e -> nth_error rows i = Some e /\ LD.e_id e = i).
+    Proof. loaded n He. exact (get_edge_row n rows vrows i Hids). Qed.
+    Theorem loaded_src_dst i :
+      LD.src_vertex_id g i = rmap LD.e_src (LD.s_edge rows i)
+      /\ LD.dst_vertex_id g i = rmap LD.e_dst (LD.s_edge rows i).
+    Proof. loaded n He. exact (src_dst_spec n rows vrows i Hids). Qed.
+    Theorem loaded_out_edges v : LD.out_edges g v = LD.s_out rows v.
+    Proof. loaded n He. exact (out_edges_spec n rows vrows Hids He v). Qed.
+    Theorem loaded_in_edges v : LD.in_edges g v = LD.s_in rows v.
+    Proof. loaded n He. exact (in_edges_spec n rows vrows Hids He v). Qed.
+    Theorem loaded_views v :
+      LD.adj_view g v = LD.s_adj_view rows v /\ LD.rev_view g v = LD.s_rev_view rows v.
+    Proof.
+      loaded n He. split; [exact (adj_view_spec n rows vrows Hids He v) | exact (rev_view_spec n rows vrows Hids He v)].
+    Qed.
+    Theorem loaded_same_edge_set :
+      Permutation (LD.triples_adj g) (LD.triples_rev g)
+      /\ (forall t, In t (LD.triples_adj g) <-> In t (LD.s_triples rows))
+      /\ (forall t, In t (LD.triples_rev g) <-> In t (LD.s_triples rows)).
+    Proof. loaded n He. exact (adj_rev_same_edge_set n rows vrows Hids He). Qed.
+    Theorem loaded_each_once :
+      Permutation (LD.triples_adj g) (LD.s_triples rows) /\ Permutation (LD.triples_rev g) (LD.s_triples rows).
+    Proof.
+      loaded n He. split; [exact (triples_adj_perm n rows vrows Hids He) | exact (triples_rev_perm n rows vrows Hids He)].
+    Qed.
+    Theorem loaded_incident v d :
+      LD.incident_edges g v d = map LD.e_id (LD.s_incident rows v d)
+      /\ LD.incident_triplet_ids g v d = Ok (LD.s_triplet_ids rows v d).
+    Proof. loaded n He. exact (incident_spec n rows vrows v d Hids He). Qed.
+
+    Hypothesis Hvids : LD.vids_are_rows vrows.
+    Theorem loaded_triplet i : LD.edge_triplet g i = LD.s_triplet rows vrows i.
+    Proof. loaded n He. exact (edge_triplet_spec n rows vrows i Hids Hvids). Qed.
+    Theorem loaded_incident_attributes v d :
+      LD.incident_triplet_attributes g v d = LD.s_triplet_attributes rows vrows v d.
+    Proof. loaded n He. exact (incident_attributes_spec n rows vrows v d Hids Hvids He). Qed.
+  End Loaded.
 
   (* the explicit edge count is never used for anything *)
   Theorem n_edges_irrelevant (f : LD.files D C) k k' nv :
